@@ -83,7 +83,10 @@ func c10Gen(tape *simrt.Tape, tier string) *c10Case {
 		p.AsError = tape.Bool(1, 5, "aserror")
 		sc.Answers = append(sc.Answers, p)
 	}
-	sc.AbortDelayMs = []int{0, 0, 1, 100, 2999, 3000, 4999, 5001, 9000}[tape.Choose(9, "abortdelay")]
+	// (the last value: a peer behind the in-process seam that ignores the
+	// cancellation of its context for minutes; the runner gives up waiting for
+	// it after gracefulShutdownPeriod)
+	sc.AbortDelayMs = []int{0, 0, 1, 100, 2999, 3000, 4999, 5001, 9000, 600000}[tape.Choose(10, "abortdelay")]
 	// about one run in four is fault free
 	if tape.Bool(3, 4, "faulty") {
 		switch tape.Choose(12, "faultkind") {
@@ -147,6 +150,12 @@ func c10Gen(tape *simrt.Tape, tier string) *c10Case {
 		if sc.ExitAfterRead >= 0 && !tape.Bool(1, 2, "inprocess-exit-early") {
 			sc.ExitAfterRead = -1
 		}
+	}
+	if sc.AbortDelayMs > 9000 && (sc.StopReadingAt >= 0 || sc.Fault == cfCloseStdout || sc.Fault == cfPremature) {
+		// A peer that stops reading its stdin blocks a sender until it is gone:
+		// with a peer that ignores its cancellation for minutes that is the
+		// peer's doing (a real process is killed after the grace period).
+		sc.AbortDelayMs = 9000
 	}
 	c.Script = sc
 	c.Fault = cfNames[sc.Fault]
@@ -309,8 +318,10 @@ func c10Body(tape *simrt.Tape, o simwork.Opts, res *simwork.Result) {
 	// 3 s and result() waits gracefulShutdownPeriod; closing may in addition
 	// wait for a blocked sender, which the abort (plus the scripted kill delay)
 	// releases.
+	// All senders have returned when the measured interval starts, so nothing
+	// in it waits for the death of the process longer than result() does.
 	bound := maxDelay + 2*clientResponseTimeout + 3*time.Second + 2*gracefulShutdownPeriod +
-		time.Duration(cs.Script.AbortDelayMs)*time.Millisecond + time.Second
+		min(time.Duration(cs.Script.AbortDelayMs)*time.Millisecond, 2*gracefulShutdownPeriod) + time.Second
 	if cs.SlowNode > 0 {
 		bound += time.Duration(sim.DelayedRunnable) * 5 * time.Second
 	}
